@@ -406,7 +406,7 @@ func c17Scenarios(cfg runCfg) []Scenario {
 }
 
 // TestManyEmptyFilesChild only runs in the child process started by the C17 "many-empty-files" family: 400 empty
-// fail files and one usable, still failing one, in a process that may have 128 files open and does not collect garbage.
+// fail files (every other one a directory of that name) and one usable, still failing one, in a process that may have 128 files open and does not collect garbage.
 func TestManyEmptyFilesChild(t *testing.T) {
 	if os.Getenv("C17_MANY_EMPTY") == "" {
 		t.Skip("not a C17 child")
@@ -425,6 +425,11 @@ func TestManyEmptyFilesChild(t *testing.T) {
 	for i := 0; i < 400; i++ {
 		p := writeFailFile(t.Name(), fmt.Sprintf("20200101%06d-%d", i, i), ver, 1, nil, "")
 		_ = os.WriteFile(p, nil, 0o644)
+		if i%2 == 1 {
+			// not even a file: a directory with the name of a fail file is as unusable, and as harmless
+			_ = os.Remove(p)
+			_ = os.Mkdir(p, 0o755)
+		}
 	}
 	writeFailFile(t.Name(), "20260101000000-1", ver, 1, []uint64{7, 7, 7, 7}, "still fails")
 	lim := syscall.Rlimit{Cur: 128, Max: 128}
